@@ -494,7 +494,8 @@ def _r6(ctx, repo, A):
     ctx.rule("C15.R6", "wait_procs bookkeeping: negative timeout rejected; every "
              "sweep iterates `alive` and is followed by alive = alive - gone; "
              "returncode / gone.add / callback happen together, only when wait() "
-             "did not time out; result is (list(gone), list(alive))", floor=5)
+             "did not time out; result is (list(gone), list(alive)); the time slice is "
+             "recomputed from the deadline before every timed wait", floor=6)
     wpf = repo.func("psutil", "wait_procs")
     cg = repo.func("psutil", "wait_procs.check_gone")
     cfg = A.cfg(wpf)
@@ -645,6 +646,38 @@ def _r6(ctx, repo, A):
     else:
         ctx.fail("C15.R6", "deadline-slicing", wpf.file, wpf.node.lineno, wpf.qual,
                  "the per-process wait is no longer min(deadline - now, max_timeout)")
+
+
+    # the time slice handed to each wait is recomputed from the deadline before
+    # EVERY timed wait: no path from one timed check_gone() to the next (or from
+    # the entry to the first) avoids the `min(deadline - now, ...)` assignment
+    if len(sl) == 1:
+        svar = dotted(sl[0].targets[0])
+        slnodes = set(cfg.nodes_of(sl[0]))
+        timed = [c for c in calls if len(c.args) > 1 and any(
+            isinstance(x, ast.Name) and x.id == svar for x in ast.walk(c.args[1]))]
+        bad = None
+        for c2 in timed:
+            for n2 in cfg.owners(c2):
+                if cfg.path_exists(cfg.entry, n2, avoid=slnodes, skip_labels=("exc", "raise")):
+                    bad = (None, c2)
+                for c1 in timed:
+                    for n1 in cfg.owners(c1):
+                        if cfg.path_exists(n1, n2, avoid=slnodes, skip_labels=("exc", "raise")):
+                            bad = (c1, c2)
+        if timed and bad is None:
+            ctx.ok("C15.R6", "slice-per-wait", sample="every timed check_gone() is preceded, on "
+                   "every path from the previous one, by min(deadline - now, max_timeout)")
+        elif timed:
+            ctx.fail("C15.R6", "slice-per-wait", wpf.file, bad[1].lineno, wpf.qual,
+                     f"`{norm_stmt(bad[1])}` can run "
+                     + (f"after `{norm_stmt(bad[0])}`" if bad[0] is not None else "first")
+                     + " without the remaining time being recomputed from the deadline: with n "
+                     "live processes a sweep waits n slices computed once, so wait_procs "
+                     "returns up to (n-1) slices after the timeout")
+        else:
+            ctx.fail("C15.R6", "slice-per-wait", wpf.file, wpf.node.lineno, wpf.qual,
+                     "no wait receives the deadline-derived time slice")
 
 
 def _parent_body(fnode, target):
